@@ -153,7 +153,11 @@ func (self *Interpreter) forStatement(node ast.AnalyzedForStatement) *value.Inte
 	// Iterate over a snapshot: mutating the list inside the loop body must not change the iteration (like the VM).
 	if list, isList := (*iterVal).(value.ValueList); isList {
 		snapshot := make([]*value.Value, len(*list.Values))
-		copy(snapshot, *list.Values)
+		for idx, elem := range *list.Values {
+			// Each element gets a cell of its own so that assigning to `list[idx]` in the body is not observed either.
+			elemOwned := *elem
+			snapshot[idx] = &elemOwned
+		}
 		iterVal = value.NewValueList(snapshot)
 	}
 
